@@ -352,8 +352,10 @@ type genCase struct {
 	geoProbe, geoProbe4, geoProbe6 []netip.Addr
 	// the configuration carries a GeoIP criterion but names no database: it must be refused at load
 	expectRefusal bool
-	// names listed in toDomains of routes that carry toMatchedDomainExpectedGeoIPCountries
-	geoDomains []string
+	// the focused sub-space of TestRouterModelExpectation
+	focus bool
+	// names matched by the domain criterion of routes that carry a toMatchedDomainExpected… requirement
+	focusDomains []string
 }
 
 // genGeo draws the country database of a world and writes it with the harness's own MMDB writer.
@@ -426,8 +428,21 @@ func drawCountries(rt *rapid.T, label string) []string {
 	return rapid.Permutation(out).Draw(rt, label+"-perm")
 }
 
-func genWorld(rt *rapid.T, dir string) *genCase {
-	g := &genCase{w: &world{tcp: map[string]bool{}, udp: map[string]bool{}, dsets: map[string]*dsModel{}, psets: map[string]*psModel{}},
+// genWorld draws a configuration. focus selects the sub-space of the stage TestRouterModelExpectation:
+// every route carries a domain criterion with a toMatchedDomainExpected… requirement (plain or under
+// invertToDomains), the other criterion kinds are rare, there are always resolvers and prefix sets.
+func genWorld(rt *rapid.T, dir string, focus bool) *genCase {
+	presence := func(label string) int {
+		if focus {
+			return rapid.SampledFrom([]int{0, 0, 0, 0, 0, 0, 0, 1, 2}).Draw(rt, label)
+		}
+		return drawPresence(rt, label)
+	}
+	lo := 0 // at least one resolver / prefix set in the focused sub-space
+	if focus {
+		lo = 1
+	}
+	g := &genCase{focus: focus, w: &world{tcp: map[string]bool{}, udp: map[string]bool{}, dsets: map[string]*dsModel{}, psets: map[string]*psModel{}},
 		files: map[string][]byte{}, labels: map[string]bool{}}
 	w := g.w
 
@@ -457,12 +472,16 @@ func genWorld(rt *rapid.T, dir string) *genCase {
 	}
 
 	// country database on a third of the worlds
-	if rapid.IntRange(0, 2).Draw(rt, "geo-db") == 0 {
+	geoOdds := 2
+	if focus {
+		geoOdds = 1
+	}
+	if rapid.IntRange(0, geoOdds).Draw(rt, "geo-db") == 0 {
 		genGeo(rt, g, dir)
 	}
 
 	// resolvers
-	nRes := rapid.IntRange(0, 3).Draw(rt, "resolvers")
+	nRes := rapid.IntRange(lo, 3).Draw(rt, "resolvers")
 	drawAnswer := func(label string) answer {
 		k := rapid.SampledFrom([]int{0, 0, 1, 1, 2, 3, 4, 4, 5}).Draw(rt, label)
 		a := answer{Kind: k,
@@ -532,7 +551,7 @@ func genWorld(rt *rapid.T, dir string) *genCase {
 	}
 
 	// prefix sets
-	nPS := rapid.IntRange(0, 2).Draw(rt, "psets")
+	nPS := rapid.IntRange(lo, 2).Draw(rt, "psets")
 	var psNames []string
 	for i := 0; i < nPS; i++ {
 		ps := &psModel{Name: fmt.Sprintf("ps%d", i), Prefixes: drawPrefixes(rt, "ps", 1, 4)}
@@ -582,7 +601,11 @@ func genWorld(rt *rapid.T, dir string) *genCase {
 	g.cfg.DefaultUDPClientName, w.defUDP = drawDefault("def-udp", udpNames)
 
 	// routes
-	nRoutes := rapid.SampledFrom([]int{0, 1, 2, 2, 3, 3, 4, 5, 6}).Draw(rt, "routes")
+	routeCounts := []int{0, 1, 2, 2, 3, 3, 4, 5, 6}
+	if focus {
+		routeCounts = []int{1, 2, 2, 3, 3, 4}
+	}
+	nRoutes := rapid.SampledFrom(routeCounts).Draw(rt, "routes")
 	g.cfg.Routes = make([]router.RouteConfig, nRoutes)
 	for i := 0; i < nRoutes; i++ {
 		rc := &g.cfg.Routes[i]
@@ -606,11 +629,11 @@ func genWorld(rt *rapid.T, dir string) *genCase {
 		cn := strings.SplitN(rapid.SampledFrom(nets).Draw(rt, "route-client-net"), ":", 2)
 		rc.Client, rc.Network = cn[0], cn[1]
 
-		if p := drawPresence(rt, "from-servers"); p > 0 {
+		if p := presence("from-servers"); p > 0 {
 			rc.FromServers = subset(rt, "srv", w.servers, 1)
 			rc.InvertFromServers = p == 2
 		}
-		if p := drawPresence(rt, "from-users"); p > 0 {
+		if p := presence("from-users"); p > 0 {
 			rc.FromUsers = subset(rt, "usr", userVocab, 1)
 			rc.InvertFromUsers = p == 2
 			// "" is a legal member: requests that carry no authenticated user
@@ -628,13 +651,13 @@ func genWorld(rt *rapid.T, dir string) *genCase {
 				g.emptyUserListed = true
 			}
 		}
-		if p := drawPresence(rt, "from-ports"); p > 0 {
+		if p := presence("from-ports"); p > 0 {
 			var probes []uint16
 			rc.FromPorts, rc.FromPortRanges, rm.fromPort, probes = drawPorts(rt, "fp")
 			rc.InvertFromPorts = p == 2
 			g.portProbe = append(g.portProbe, probes...)
 		}
-		if p := drawPresence(rt, "from-prefixes"); p > 0 {
+		if p := presence("from-prefixes"); p > 0 {
 			which := rapid.IntRange(0, 2).Draw(rt, "from-prefix-which")
 			if len(psNames) == 0 {
 				which = 0
@@ -648,18 +671,21 @@ func genWorld(rt *rapid.T, dir string) *genCase {
 			rc.InvertFromPrefixes = p == 2
 		}
 		if w.geo != nil {
-			if p := drawPresence(rt, "from-geo"); p > 0 {
+			if p := presence("from-geo"); p > 0 {
 				rc.FromGeoIPCountries = drawCountries(rt, "fgc")
 				rc.InvertFromGeoIPCountries = p == 2
 			}
 		}
-		if p := drawPresence(rt, "to-ports"); p > 0 {
+		if p := presence("to-ports"); p > 0 {
 			var probes []uint16
 			rc.ToPorts, rc.ToPortRanges, rm.toPort, probes = drawPorts(rt, "tp")
 			rc.InvertToPorts = p == 2
 			g.portProbe = append(g.portProbe, probes...)
 		}
 		pd := drawPresence(rt, "to-domains")
+		if focus {
+			pd = rapid.IntRange(1, 2).Draw(rt, "to-domains-focus")
+		}
 		if pd > 0 {
 			which := rapid.IntRange(0, 2).Draw(rt, "to-domain-which")
 			if len(dsNames) == 0 {
@@ -685,17 +711,25 @@ func genWorld(rt *rapid.T, dir string) *genCase {
 			if which != 0 {
 				rc.ToDomainSets = subset(rt, "tds", dsNames, 1)
 			}
-			// "require the matched domain to resolve into": needs resolvers; not combined with
-			// invertToDomains (documented ambiguously)
+			// "require the matched domain to resolve into": needs resolvers. Since round 6 also together
+			// with invertToDomains (two documented readings, see the model)
+			rc.InvertToDomains = pd == 2
 			expectedOdds := 2 // one in three
 			if w.geo != nil {
 				expectedOdds = 1 // with a country database: one in two
+			}
+			if focus {
+				expectedOdds = 0
 			}
 			if nRes > 0 && rapid.IntRange(0, expectedOdds).Draw(rt, "expected") == 0 {
 				// which address kinds the requirement names: prefixes, countries (needs a database), both
 				ekind := "prefixes"
 				if w.geo != nil {
-					ekind = rapid.SampledFrom([]string{"prefixes", "countries", "countries", "countries", "both"}).Draw(rt, "expected-kind")
+					kinds := []string{"prefixes", "countries", "countries", "countries", "both"}
+					if focus {
+						kinds = []string{"prefixes", "prefixes", "countries", "countries", "both"}
+					}
+					ekind = rapid.SampledFrom(kinds).Draw(rt, "expected-kind")
 				}
 				if ekind != "countries" {
 					pe := rapid.IntRange(1, 2).Draw(rt, "expected-inv")
@@ -715,13 +749,26 @@ func genWorld(rt *rapid.T, dir string) *genCase {
 				if ekind != "prefixes" {
 					rc.ToMatchedDomainExpectedGeoIPCountries = drawCountries(rt, "egc")
 					rc.InvertToMatchedDomainExpectedGeoIPCountries = rapid.IntRange(0, 2).Draw(rt, "expected-geo-inv") == 0
-					g.geoDomains = append(g.geoDomains, rc.ToDomains...)
 				}
-			} else {
-				rc.InvertToDomains = pd == 2
+				// requests aim at the names this route lists (and, for sets, at the vocabulary names they match)
+				filler := false
+				for _, d := range rc.ToDomains {
+					// of the filler names (resolved by no resolver) one is enough
+					if slices.Contains(domainVocab, d) || !filler && d != "" {
+						g.focusDomains = append(g.focusDomains, d)
+						filler = filler || !slices.Contains(domainVocab, d)
+					}
+				}
+				for _, n := range rc.ToDomainSets {
+					for _, d := range domainVocab {
+						if w.dsets[n].naive.Match(d) {
+							g.focusDomains = append(g.focusDomains, d)
+						}
+					}
+				}
 			}
 		}
-		if p := drawPresence(rt, "to-prefixes"); p > 0 {
+		if p := presence("to-prefixes"); p > 0 {
 			rc.DisableNameResolutionForIPRules = nRes == 0 || rapid.IntRange(0, 3).Draw(rt, "disable-resolve") == 0
 			which := rapid.IntRange(0, 2).Draw(rt, "to-prefix-which")
 			if len(psNames) == 0 {
@@ -736,7 +783,7 @@ func genWorld(rt *rapid.T, dir string) *genCase {
 			rc.InvertToPrefixes = p == 2
 		}
 		if w.geo != nil {
-			if p := drawPresence(rt, "to-geo"); p > 0 {
+			if p := presence("to-geo"); p > 0 {
 				if len(rc.ToPrefixes) == 0 && len(rc.ToPrefixSets) == 0 {
 					rc.DisableNameResolutionForIPRules = nRes == 0 || rapid.IntRange(0, 3).Draw(rt, "disable-resolve-geo") == 0
 				}
@@ -799,7 +846,11 @@ func drawRequest(rt *rapid.T, g *genCase) request {
 	}
 	q.Src = netip.AddrPortFrom(src, drawPort("sport"))
 	q.Port = drawPort("dport")
-	if rapid.Bool().Draw(rt, "target-ip") {
+	ipOdds, focusOdds := 1, 1 // one in two
+	if g.focus {
+		ipOdds, focusOdds = 3, 2 // IP target one in four; a name the routes list two in three
+	}
+	if rapid.IntRange(0, ipOdds).Draw(rt, "target-ip") == 0 {
 		q.IsIP = true
 		q.IP = drawAddr(rt, "dst")
 		if q.IP.Is4() && rapid.IntRange(0, 4).Draw(rt, "dst-mapped") == 0 {
@@ -807,8 +858,8 @@ func drawRequest(rt *rapid.T, g *genCase) request {
 		}
 	} else {
 		q.Domain = rapid.SampledFrom(domainVocab).Draw(rt, "domain")
-		if len(g.geoDomains) > 0 && rapid.Bool().Draw(rt, "domain-geo") {
-			if d := rapid.SampledFrom(g.geoDomains).Draw(rt, "domain-geo-name"); d != "" {
+		if len(g.focusDomains) > 0 && rapid.IntRange(0, focusOdds).Draw(rt, "domain-focus") > 0 {
+			if d := rapid.SampledFrom(g.focusDomains).Draw(rt, "domain-focus-name"); d != "" {
 				q.Domain = d
 			}
 		}
@@ -952,7 +1003,38 @@ var recRouter = ev.New("C09", "router-model",
 		"geoip-to-domain-not-resolved", "geoip-to-domain-resolver-fails", "geoip-expected", "geoip-expected/inverted", "geoip-expected/domain-matched",
 		"geoip-inverted", "geoip-addr-not-in-db", "geoip-record-without-country", "geoip-in-listed-country", "geoip-longest-network-decides",
 		"geoip-mapped-address", "geoip-v4-address-under-v6-network", "geoip-decides", "geoip-decides/from", "geoip-decides/to", "geoip-decides/expected",
-		"geoip-no-db-refused", "geoip-db/record-size-24", "geoip-db/record-size-28", "geoip-db/record-size-32", "geoip-db/data-pointers")
+		"geoip-no-db-refused", "geoip-db/record-size-24", "geoip-db/record-size-28", "geoip-db/record-size-32", "geoip-db/data-pointers",
+		// round 6
+		"invert-domains-with-expectation", "invert-domains-with-expectation/readings-differ",
+		"invert-domains-with-expectation/expectation-plain", "invert-domains-with-expectation/expectation-inverted",
+		"expected-alone/inline-prefixes", "expected-alone/prefix-sets", "expected-alone/countries",
+		"port0-inverted/from-single/ip-target", "port0-inverted/from-single/domain-target",
+		"port0-inverted/from-ranges/ip-target", "port0-inverted/from-ranges/domain-target",
+		"port0-inverted/from-bitmap/ip-target", "port0-inverted/from-bitmap/domain-target",
+		"port0-inverted/to-single/ip-target", "port0-inverted/to-single/domain-target",
+		"port0-inverted/to-ranges/ip-target", "port0-inverted/to-ranges/domain-target",
+		"port0-inverted/to-bitmap/ip-target", "port0-inverted/to-bitmap/domain-target")
+
+// The focused sub-space (round 6): see genWorld. Same runner, same model, same failure signatures.
+var recExpect = ev.New("C09", "router-model-expectation",
+	"rapid: the generator of router-model restricted to configurations with 1-4 routes that all carry a domain criterion (toDomains and/or toDomainSets, plain or invertToDomains) "+
+		"with a toMatchedDomainExpected… requirement stated through inline prefixes alone / named prefix sets alone / countries alone / a mixture, plain or with the requirement's own invert flag; every other criterion kind present on 2 of 9 routes; 1-3 resolvers, 1-2 prefix sets, a country database on half; "+
+		"12 requests per configuration, three quarters with a domain target, two thirds of those a name the routes list. "+
+		"Oracle: the same reference evaluator; for invertToDomains with a requirement the union of the two documented readings, one of which must account for all 12 requests of the configuration. "+
+		"Non-trivial: the same rule as router-model").
+	Require(func() []string {
+		out := []string{"invert-domains-with-expectation", "invert-domains-with-expectation/readings-differ", "error-required", "resolved", "errlookup-skipped", "nonfirst-route", "decided-default"}
+		for _, c := range []string{"listed-resolves-inside", "listed-resolves-outside", "unlisted-resolves-inside", "unlisted-resolves-outside", "ip-target", "listed-resolver-fails", "unlisted-resolver-fails"} {
+			out = append(out, "invert-domains-with-expectation/"+c, "invert-domains-with-expectation/expectation-inverted/"+c)
+		}
+		for _, way := range []string{"inline-prefixes", "prefix-sets", "countries"} {
+			out = append(out, "expected-alone/"+way)
+			for _, c := range []string{"listed-resolves-inside", "listed-resolves-outside", "listed-resolver-fails", "listed-resolver-fails-empty"} {
+				out = append(out, "expected-alone/"+way+"/"+c)
+			}
+		}
+		return out
+	}()...)
 
 var dirSeq atomic.Int64
 
@@ -972,12 +1054,26 @@ func TestRouterModel(t *testing.T) {
 	rapid.Check(t, func(rt *rapid.T) {
 		dir := workDir(rt)
 		defer os.RemoveAll(dir)
-		g := genWorld(rt, dir)
+		g := genWorld(rt, dir, false)
 		qs := make([]request, requestsPerConfig)
 		for i := range qs {
 			qs[i] = drawRequest(rt, g)
 		}
 		runCase(rt, g, qs, recRouter, nil)
+	})
+}
+
+// TestRouterModelExpectation runs the router model on the focused sub-space of genWorld.
+func TestRouterModelExpectation(t *testing.T) {
+	rapid.Check(t, func(rt *rapid.T) {
+		dir := workDir(rt)
+		defer os.RemoveAll(dir)
+		g := genWorld(rt, dir, true)
+		qs := make([]request, requestsPerConfig)
+		for i := range qs {
+			qs[i] = drawRequest(rt, g)
+		}
+		runCase(rt, g, qs, recExpect, nil)
 	})
 }
 
@@ -1019,10 +1115,36 @@ func runCase(rt fataler, g *genCase, qs []request, rec *ev.Recorder, ntRule func
 		return string(js)
 	}
 
+	// invertToDomains together with toMatchedDomainExpected…: two documented readings (model, NOTES.md
+	// round 6). Every outcome must be acceptable under reading (a) or under reading (b), and one of the
+	// two readings must account for all requests of the configuration.
+	twoReadings := false
+	for i := range w.routes {
+		rc := w.routes[i].rc
+		if rc.InvertToDomains && len(rc.ToMatchedDomainExpectedPrefixes)+len(rc.ToMatchedDomainExpectedPrefixSets)+len(rc.ToMatchedDomainExpectedGeoIPCountries) > 0 {
+			twoReadings = true
+		}
+	}
+	refutesA, refutesB := "", ""
+
 	shape := configShape(g)
 	for i := range qs {
 		q := &qs[i]
 		want := w.route(q)
+		accept := want.accept
+		var wantB verdict
+		if twoReadings {
+			w.readingB = true
+			wantB = w.route(q)
+			w.readingB = false
+			accept = map[string]bool{}
+			for k := range want.accept {
+				accept[k] = true
+			}
+			for k := range wantB.accept {
+				accept[k] = true
+			}
+		}
 		for _, fr := range g.resolvers {
 			fr.calls = 0
 		}
@@ -1057,6 +1179,19 @@ func runCase(rt fataler, g *genCase, qs []request, rec *ev.Recorder, ntRule func
 			for _, l := range inf.degenerate {
 				add(l)
 			}
+		}
+		// round-6 labels: once per pair
+		r6Seen := map[string]bool{}
+		for _, inf := range want.infos {
+			for _, l := range inf.r6 {
+				if !r6Seen[l] {
+					r6Seen[l] = true
+					add(l)
+				}
+			}
+		}
+		if twoReadings && !slices.Equal(keys(want.accept), keys(wantB.accept)) {
+			add("invert-domains-with-expectation/readings-differ")
 		}
 		// GeoIP labels: once per pair
 		geoSeen := map[string]bool{}
@@ -1103,19 +1238,35 @@ func runCase(rt fataler, g *genCase, qs []request, rec *ev.Recorder, ntRule func
 			rt.Fatalf("SIG=C09/%s request=%v panicked: %v (port-0-vs=%q) config=%s", sig, *q, got.panicV, port0, cfgJSON())
 		}
 
-		if !want.accept[got.s] {
+		if !accept[got.s] {
 			sig := "wrong-route"
 			switch {
-			case strings.HasPrefix(got.s, "error:") && !hasErrorOutcome(want.accept):
+			case strings.HasPrefix(got.s, "error:") && !hasErrorOutcome(accept):
 				sig = "unexpected-error"
-			case !strings.HasPrefix(got.s, "error:") && onlyErrorOutcomes(want.accept):
+			case !strings.HasPrefix(got.s, "error:") && onlyErrorOutcomes(accept):
 				sig = "resolver-failure-swallowed"
 			case strings.HasPrefix(got.s, "error:"):
 				sig = "wrong-error"
-			case got.s == "reject" || want.accept["reject"]:
+			case got.s == "reject" || accept["reject"]:
 				sig = "wrong-reject"
 			}
-			rt.Fatalf("SIG=C09/%s request=%v got=%s (err=%v) acceptable=%v config=%s", sig, *q, got.s, got.err, keys(want.accept), cfgJSON())
+			readings := ""
+			if twoReadings {
+				readings = fmt.Sprintf(" (invertToDomains with toMatchedDomainExpected…: reading a %v, reading b %v)", keys(want.accept), keys(wantB.accept))
+			}
+			rt.Fatalf("SIG=C09/%s request=%v got=%s (err=%v) acceptable=%v%s config=%s", sig, *q, got.s, got.err, keys(accept), readings, cfgJSON())
+		}
+		if twoReadings {
+			if !want.accept[got.s] && refutesA == "" {
+				refutesA = fmt.Sprintf("request=%v got=%s, reading a accepts %v", *q, got.s, keys(want.accept))
+			}
+			if !wantB.accept[got.s] && refutesB == "" {
+				refutesB = fmt.Sprintf("request=%v got=%s, reading b accepts %v", *q, got.s, keys(wantB.accept))
+			}
+			if refutesA != "" && refutesB != "" {
+				rt.Fatalf("SIG=C09/invert-domains-with-expectation-follows-neither-reading the outcomes of one configuration fit neither documented reading of invertToDomains with toMatchedDomainExpected…: "+
+					"against (a) \"not (listed and resolves as expected)\": %s; against (b) \"not listed, and resolves as expected\": %s; config=%s", refutesA, refutesB, cfgJSON())
+			}
 		}
 
 		// classification
@@ -1159,7 +1310,7 @@ func runCase(rt fataler, g *genCase, qs []request, rec *ev.Recorder, ntRule func
 		switch {
 		case strings.HasPrefix(got.s, "error:"):
 			add("error")
-			if onlyErrorOutcomes(want.accept) {
+			if onlyErrorOutcomes(accept) {
 				add("error-required")
 			}
 			add(strings.Join(strings.SplitN(got.s, ":", 3)[:2], "-"))
